@@ -1668,4 +1668,91 @@ theorem matchGeometry_tol_gt_one {α : Type} (src : Vol α) (tgt : Geom) (tol : 
   simp [hperm]
 
 
+/-! ## 4×4 matrices: product, inverse -/
+
+
+theorem fin4_cases (i : Fin 4) : i = 0 ∨ i = 1 ∨ i = 2 ∨ i = 3 := by
+  rcases i with ⟨v, hv⟩
+  have : v = 0 ∨ v = 1 ∨ v = 2 ∨ v = 3 := by omega
+  rcases this with rfl | rfl | rfl | rfl
+  · left; rfl
+  · right; left; rfl
+  · right; right; left; rfl
+  · right; right; right; rfl
+
+theorem M4.mul_assoc (A B C : M4) : (A.mul B).mul C = A.mul (B.mul C) := by
+  funext i j; simp only [M4.mul]; ring
+
+theorem M4.one_mul (A : M4) : M4.one.mul A = A := by
+  funext i j
+  rcases fin4_cases i with rfl | rfl | rfl | rfl <;> simp [M4.mul, M4.one]
+
+theorem M4.mul_one (A : M4) : A.mul M4.one = A := by
+  funext i j
+  rcases fin4_cases j with rfl | rfl | rfl | rfl <;> simp [M4.mul, M4.one]
+
+/-- the 4×4 product of two affine matrices is the affine matrix of the composition -/
+theorem Aff.hom_comp (A B : Aff) : (A.comp B).hom = A.hom.mul B.hom := by
+  funext i j
+  rcases fin4_cases i with rfl | rfl | rfl | rfl <;> rcases fin4_cases j with rfl | rfl | rfl | rfl <;>
+    simp [Aff.hom, Aff.comp, Aff.lin, Aff.apply, M4.mul, V3.col4, V3.add, V3.smul] <;> ring
+
+theorem Aff.hom_applyPt (A : Aff) (v : V3) : A.hom.applyPt v = A.apply v := by
+  apply V3.ext' <;> simp [M4.applyPt, Aff.hom, V3.col4, Aff.apply, Aff.lin, V3.add, V3.smul] <;> ring
+
+def Aff.ident : Aff := ⟨⟨1, 0, 0⟩, ⟨0, 1, 0⟩, ⟨0, 0, 1⟩, ⟨0, 0, 0⟩⟩
+
+theorem Aff.hom_ident : Aff.ident.hom = M4.one := by
+  funext i j
+  rcases fin4_cases i with rfl | rfl | rfl | rfl <;> rcases fin4_cases j with rfl | rfl | rfl | rfl <;>
+    simp [Aff.hom, Aff.ident, M4.one, V3.col4]
+
+/-- an affine map is determined by its values -/
+theorem Aff.ext_apply (A B : Aff) (h : ∀ v, A.apply v = B.apply v) : A = B := by
+  have h0 := h ⟨0, 0, 0⟩
+  have h1 := h ⟨1, 0, 0⟩
+  have h2 := h ⟨0, 1, 0⟩
+  have h3 := h ⟨0, 0, 1⟩
+  obtain ⟨⟨a0, a1, a2⟩, ⟨b0, b1, b2⟩, ⟨c0, c1, c2⟩, ⟨t0, t1, t2⟩⟩ := A
+  obtain ⟨⟨a0', a1', a2'⟩, ⟨b0', b1', b2'⟩, ⟨c0', c1', c2'⟩, ⟨t0', t1', t2'⟩⟩ := B
+  simp only [Aff.apply, Aff.lin, V3.add, V3.smul, V3.mk.injEq] at h0 h1 h2 h3
+  simp only [Aff.mk.injEq, V3.mk.injEq]
+  obtain ⟨p0, p1, p2⟩ := h0
+  obtain ⟨q0, q1, q2⟩ := h1
+  obtain ⟨r0, r1, r2⟩ := h2
+  obtain ⟨s0, s1, s2⟩ := h3
+  refine ⟨⟨?_, ?_, ?_⟩, ⟨?_, ?_, ?_⟩, ⟨?_, ?_, ?_⟩, ⟨?_, ?_, ?_⟩⟩ <;> linarith
+
+/-- the model's inverse, as a 4×4 matrix, is a two-sided inverse of the 4×4 affine matrix -/
+theorem Aff.hom_inv {A B : Aff} (h : A.inv = .ok B) : B.hom.mul A.hom = M4.one ∧ A.hom.mul B.hom = M4.one := by
+  have e1 : B.comp A = Aff.ident := by
+    apply Aff.ext_apply
+    intro v
+    rw [Aff.comp_apply, Aff.inv_left h]
+    apply V3.ext' <;> simp [Aff.ident, Aff.apply, Aff.lin, V3.add, V3.smul]
+  have e2 : A.comp B = Aff.ident := by
+    apply Aff.ext_apply
+    intro v
+    rw [Aff.comp_apply, Aff.inv_right h]
+    apply V3.ext' <;> simp [Aff.ident, Aff.apply, Aff.lin, V3.add, V3.smul]
+  constructor
+  · rw [← Aff.hom_comp, e1, Aff.hom_ident]
+  · rw [← Aff.hom_comp, e2, Aff.hom_ident]
+
+/-- **any** 4×4 matrix that inverts the affine matrix from the left (or from the right) — in
+particular what `np.linalg.inv` returns — *is* the affine matrix of the model's inverse -/
+theorem Aff.inv4_unique {A B : Aff} (h : A.inv = .ok B) (M : M4) (hM : M.mul A.hom = M4.one ∨ A.hom.mul M = M4.one) :
+    M = B.hom := by
+  obtain ⟨hl, hr⟩ := Aff.hom_inv h
+  rcases hM with hM | hM
+  · calc M = M.mul M4.one := (M4.mul_one M).symm
+      _ = M.mul (A.hom.mul B.hom) := by rw [hr]
+      _ = (M.mul A.hom).mul B.hom := (M4.mul_assoc _ _ _).symm
+      _ = B.hom := by rw [hM, M4.one_mul]
+  · calc M = M4.one.mul M := (M4.one_mul M).symm
+      _ = (B.hom.mul A.hom).mul M := by rw [hl]
+      _ = B.hom.mul (A.hom.mul M) := M4.mul_assoc _ _ _
+      _ = B.hom := by rw [hM, M4.mul_one]
+
+
 end HdVerif.Match
